@@ -615,6 +615,23 @@ class Item:
     def r3_for_bitset(self, fn, k):
         self.r3_for_index(fn, k, "bitset")
 
+    def r3_break_return(self, fn, k):
+        """`loop { .. break E; .. }` as the TAIL expression of fn: each `break E` (of that loop) becomes
+        `return E` -- the same thing when the loop's value is the function's value"""
+        ls = self.loops(fn)
+        if k > len(ls) or ls[k - 1][0] != "loop":
+            raise Undecided("LOST-ANCHOR: R3 break-return loop %d of fn %s in %s" % (k, fn, self.where()))
+        _, s, bopen, bclose = ls[k - 1]
+        _, _, fbo, fend, _ = self.fn_span(fn)
+        if self.m[bclose + 1:fend - 1].strip():
+            raise Undecided("R3 break-return: loop is not the tail expression of fn %s" % fn)
+        inner = [x for x in ls if bopen < x[1] < bclose]
+        for c in re.finditer(r"\bbreak\b", self.m[bopen + 1:bclose]):
+            cpos = bopen + 1 + c.start()
+            if any(lo_ < cpos < lc_ for (_, _, lo_, lc_) in inner):
+                continue
+            self.rewrite(cpos, cpos + len("break"), "return", "R3-break-return")
+
     def r3_for_rev(self, fn, k):
         """for PAT in RECV.iter().rev() { BODY }  ==>  index loop from RECV.len() down to 0
         (the index is decremented at the start of the body, so break/continue need no rewriting)"""
@@ -736,7 +753,8 @@ def parse_directives(body):
 def build_unit(unit_path, repo=REPO):
     """returns dict(generated=str, items=[...], linemap=[...], log=[...])"""
     tmpl = open(unit_path).read()
-    tmpl = re.sub(r"/\*@include\s+(\S+?)\s*@\*/", lambda mo: open(os.path.join(HERE, mo.group(1))).read(), tmpl)
+    for _ in range(4):  # nested includes
+        tmpl = re.sub(r"/\*@include\s+(\S+?)\s*@\*/", lambda mo: open(os.path.join(HERE, mo.group(1))).read(), tmpl)
     gen_chunks = []   # (text, origin) origin = ("tmpl", line) | ("repo", relpath, line) | ("ghost", relpath, line)
     items = []
     pos = 0
